@@ -7,7 +7,9 @@ export CARGO_TARGET_DIR="${VERIF_TARGET_DIR:-$HERE/target}"
 export CARGO_NET_OFFLINE=true
 mkdir -p "$CARGO_TARGET_DIR" "$HERE/evidence" "$HERE/replays"
 cd "$HERE/harness"
-cargo build --offline --release --bin vcheck 2>&1 | tail -3
+cargo build --offline --release --bin vcheck --bin vmiri 2>&1 | tail -3
+# C06's second leg: same harness with overflow checks and debug assertions on
+cargo build --offline --profile relcheck --bin vcheck 2>&1 | tail -3
 # the security build is needed only when a security property (C16-C19) is claimed
 if grep -Eq '"property_id": "C1[6-9]"' "$HERE/MANIFEST.json"; then
   cargo build --offline --release --features security --bin vcheck-sec 2>&1 | tail -3
